@@ -63,6 +63,10 @@ def _c03_jobs(depth, maxn, deadline):
         for n0 in (0, 3):
             jobs.append(("c03_block", ["--prepend", pp, "--append", ap, "--align", al, "--pool", pool,
                                        "--n0", n0, "--maxn", maxn, "--depth", depth, "--deadline", deadline]))
+    # repeating fill (0,0,0,1,...): occurrences are not unique, words overlap themselves (scan/find/compare/match)
+    for n0 in (0, 4):
+        jobs.append(("c03_block", ["--prepend", 3, "--append", 0, "--align", 0, "--pool", 0, "--fill", "repeat",
+                                   "--n0", n0, "--maxn", maxn + 1, "--depth", max(2, depth - 1), "--deadline", deadline]))
     return jobs
 
 CHECKS["C03"] = {
@@ -73,7 +77,7 @@ CHECKS["C03"] = {
     "jobs": {"quick": _c03_jobs(4, 4, 75), "thorough": _c03_jobs(5, 6, 840)},
     "rule": "BFS, key = per block: segments (area index, offset, size), total_size, offset-cache segment+offset, end-cache segment; "
             "non-trivial = distinct states whose main block is segmented",
-    "bounds": {"quick": "depth 4 (cap 75 s/job), blocks <= 4 bytes, <= 4 segments, 8 jobs (4 manager configs x initial size 0/3)",
+    "bounds": {"quick": "depth 4 (cap 75 s/job), blocks <= 4 bytes, <= 4 segments, 8 jobs (4 manager configs x initial size 0/3) with position-coded content + 2 jobs with repeating content (depth-1, blocks <= 5)",
                "thorough": "depth 5 (cap 14 min/job), blocks <= 6 bytes"},
     "assumptions": DEFAULT_ASSUME + ["accessor sweep is run once per distinct canonical state (its outcome is a function of that state)"],
 }
